@@ -1071,11 +1071,18 @@ func isStanzaEmptySpace(name xml.Name) bool {
 func (s *Session) sendResp(ctx context.Context, id string, payload xml.TokenReader, start xml.StartElement) (xmlstream.TokenReadCloser, error) {
 	c := make(chan xmlstream.TokenReadCloser)
 
+	// The context that is registered with the response channel ends when this
+	// call returns for whatever reason (response received, context canceled or
+	// the element could not be sent), so the serve loop never keeps offering a
+	// response to a call that is gone.
+	regCtx, cancel := context.WithCancel(ctx)
+	defer cancel()
+
 	s.sentStanzaMutex.Lock()
 	s.sentStanzas[id] = tokenReadChan{
 		stanzaName: start.Name,
 		c:          c,
-		ctx:        ctx,
+		ctx:        regCtx,
 	}
 	s.sentStanzaMutex.Unlock()
 	verifhook.Yield("sendresp.registered")
